@@ -1,8 +1,8 @@
 (* C12 - BBR survives any QUIC-consistent event sequence with sane outputs.
    Property theorems only; every proof is `exact <lemma>` (or a two-line combination) from proof/C12_*.v.
    Layer 1: the containers (ring buffer, packet-number-indexed queue, windowed filter). *)
-From Hy Require Import lib.Res model.C12_Queue proof.C12_Ring proof.C12_PQ proof.C12_Layer1.
-From Coq Require Import ZArith List Bool.
+From Hy Require Import lib.Res model.C12_Queue model.C12_Sender proof.C12_Ring proof.C12_PQ proof.C12_Layer1 proof.C12_Sender.
+From Coq Require Import ZArith List Bool Lia.
 Import ListNotations.
 Local Open Scope Z_scope.
 
@@ -143,3 +143,149 @@ Example C12_queue_example :
        Ok (q, [RBool Z true; RBool Z true; RBool Z false; REntry Z None; REntry Z (Some 60); REntry Z (Some 30); RUnit Z; REntry Z None])
        /\ pq_slots q = 0.
 Proof. split; [vm_compute; reflexivity|]. eexists. split; vm_compute; reflexivity. Qed.
+
+(* ------------------------------------------------------------------ layer 2: the sender's window skeleton *)
+(* `winv` (proof/C12_Sender.v): 0 < mds <= MaxPacketBufferSize, minCW = 4*mds, minCW <= cwnd <= maxCW,
+   minCW <= initialCW <= maxCW, minCW <= recoveryWindow, maxCW <= 20000*mds (and the two unused
+   packet-sized windows within [0, 20000*mds]).  In all theorems below the float-derived quantities
+   (target window, mode and full-bandwidth flag after the float-dependent state machine, sampler
+   outputs) are universally quantified `oracle` values. *)
+
+(* After EVERY sequence of OnPacketSent / OnCongestionEventEx / SetMaxDatagramSize events (any
+   packet numbers, any byte counts - int64 wrap of the intermediate sums included -, any oracle
+   values; datagram sizes non-decreasing and <= MaxPacketBufferSize), starting from
+   NewBbrSender(m): no panic, and 4*mds <= GetCongestionWindow <= maxCongestionWindow,
+   4*mds <= maxCongestionWindow (C12_min_le_max) in every mode and recovery state. *)
+Theorem C12_cwnd_range : forall m agg es,
+  0 < m <= c12_MaxPacketBufferSize -> mds_ok m es ->
+  exists st, wrun agg (new_sender m) es = Ok st /\ winv st /\
+    c12_minCongestionWindowPackets * mds st <= get_cwnd st <= maxCW st /\
+    c12_minCongestionWindowPackets * mds st <= maxCW st.
+Proof.
+  intros m agg es Hm Hok.
+  destruct (wrun_inv es agg (new_sender m) (new_sender_inv m Hm) Hok) as (st & E & W).
+  exists st. split; [exact E|]. split; [exact W|]. pose proof (get_cwnd_range st W). split; [assumption|lia].
+Qed.
+Print Assumptions C12_cwnd_range.
+
+(* the same, event by event: each modelled update preserves the invariant for all oracle values *)
+Theorem C12_cwnd_range_step : forall st, winv st ->
+  (forall pn b, winv (on_sent st pn b)) /\
+  (forall agg prior sumAcked sumLost lastAcked hasLosses o,
+     winv (cong_event st agg prior sumAcked sumLost lastAcked hasLosses o)) /\
+  (forall s, mds st <= s <= c12_MaxPacketBufferSize -> exists st', set_mds st s = Ok st' /\ winv st' /\ mds st' = s) /\
+  c12_minCongestionWindowPackets * mds st <= get_cwnd st <= maxCW st.
+Proof.
+  intros st W. split; [intros; now apply on_sent_inv|]. split.
+  - intros. now apply cong_event_inv.
+  - split; [|now apply get_cwnd_range]. intros s Hs.
+    destruct (set_mds_inv st s W Hs) as (st' & E & W' & M & _). eauto.
+Qed.
+Print Assumptions C12_cwnd_range_step.
+
+(* bandwidthForPacer >= minBps (65536) whatever the float conversion of the pacing rate returns *)
+Theorem C12_pacing_floor : forall bps, c12_minBps <= bandwidth_for_pacer bps /\ c12_minBps = 65536.
+Proof. intros. split; [apply pacer_floor|reflexivity]. Qed.
+Print Assumptions C12_pacing_floor.
+
+(* SetMaxDatagramSize: a size >= the current one (and <= MaxPacketBufferSize) never panics and keeps
+   the invariant (so min <= max is preserved: rescaling is monotone); a smaller size panics (site 10).
+   Seed rule: when QUIC's initial size is > 0 the seed is min(quic, byAddr) <= quic, hence the first
+   size QUIC reports (>= its initial size) is never below the seed and cannot hit that panic. *)
+Theorem C12_datagram_size_monotone :
+  (forall st s, winv st -> mds st <= s <= c12_MaxPacketBufferSize ->
+     exists st', set_mds st s = Ok st' /\ winv st' /\ mds st' = s) /\
+  (forall st s, s < mds st -> set_mds st s = Panic 10) /\
+  (forall quicSize byAddr, 0 < quicSize -> seed_packet_size quicSize byAddr <= quicSize) /\
+  (forall quicSize byAddr reported,
+     0 < quicSize -> 0 < byAddr -> quicSize <= reported <= c12_MaxPacketBufferSize ->
+     exists st', set_mds (new_sender (seed_packet_size quicSize byAddr)) reported = Ok st' /\ winv st').
+Proof.
+  split; [|split; [|split]].
+  - intros st s W Hs. destruct (set_mds_inv st s W Hs) as (st' & E & W' & M & _). eauto.
+  - exact set_mds_smaller_panics.
+  - exact seed_le_quic.
+  - intros q a r Hq Ha Hr. pose proof (seed_le_quic q a Hq) as Hs.
+    assert (Hpos : 0 < seed_packet_size q a).
+    { unfold seed_packet_size. destruct (q <=? 0) eqn:E; [exact Ha|]. apply Z.min_glb_lt; assumption. }
+    assert (W : winv (new_sender (seed_packet_size q a))).
+    { apply new_sender_inv. split; [exact Hpos|]. apply Z.le_trans with q; [exact Hs|]. apply Z.le_trans with r; tauto. }
+    destruct (set_mds_inv _ r W) as (st' & E & W' & _).
+    { change (mds (new_sender (seed_packet_size q a))) with (seed_packet_size q a). split; [|tauto].
+      apply Z.le_trans with q; tauto. }
+    exists st'. auto.
+Qed.
+Print Assumptions C12_datagram_size_monotone.
+
+(* Deadlock half of the last clause, PARTIAL.  Proved: in every state satisfying the invariant (hence
+   every reachable state, C12_cwnd_range) CanSend(inflight) holds whenever inflight < 4*mds; and the
+   pacer, fed any bandwidth >= minBps (C12_pacing_floor; < 1 TB/s so that int64 products do not
+   wrap), either allows an immediate send (TimeUntilSend = 0) or has, at the wake-up time it
+   announces, budget for a full datagram - so the send loop is never left waiting for a time at
+   which it still may not send.
+   MISSING (not attempted): "does not settle far below capacity on a loss-free path" is a
+   convergence statement about the closed loop sender + network (float gains, bandwidth filter,
+   round counting); there is no theorem for it.  The harness's bottleneck simulator reports
+   delivered throughput per profile as supporting evidence only (evidence key `supporting_only`).
+   Also not covered: quic-go's own send loop and timers; the first pacer call (lastSentTime zero). *)
+Theorem C12_never_stalled_partial :
+  (forall st b, winv st -> b < c12_minCongestionWindowPackets * mds st -> can_send st b = true) /\
+  (forall p bw, c12_minBps <= bw < 1000000000000 ->
+     0 < p_mds p <= c12_MaxPacketBufferSize -> 0 <= p_budget p -> 0 < p_last p < 4611686018427387904 ->
+     p_mds p <= pacer_budget p bw (pacer_time_until_send p bw) \/ pacer_time_until_send p bw = 0).
+Proof. split; [exact can_send_below_min|exact pacer_wakeup_has_budget]. Qed.
+Print Assumptions C12_never_stalled_partial.
+
+(* Bookkeeping over QUIC traces: for EVERY event sequence with strictly increasing sent packet
+   numbers (in particular every quic_consistent one: skipped numbers, non-retransmittable packets,
+   any acked / lost lists, loss-only events), the sampler's connectionStateMap - driven exactly as
+   OnPacketSent / OnCongestionEventEx drive it - never panics, and after every congestion event
+   EntrySlotsUsed <= max(0, lastSent - leastUnacked + 1) with leastUnacked the code's estimate
+   (lastAcked - 2, or lastLost + 1 for loss-only events) and no entry below leastUnacked remains;
+   between events the queue's last packet never exceeds lastSent. *)
+Theorem C12_bookkeeping_bounded : forall size m0 es1 acked lost es2,
+  (quic_consistent m0 (es1 ++ QCong acked lost :: es2) = true \/
+   sent_increasing_from invalidPacketNumber (es1 ++ QCong acked lost :: es2) = true) ->
+  exists q1 q2 q3,
+    bk_run (pq_new 0 size) es1 = Ok q1 /\ bk_step q1 (QCong acked lost) = Ok q2 /\ bk_run q2 es2 = Ok q3 /\
+    pq_slots q2 <= Z.max 0 (last_sent_of invalidPacketNumber es1 - least_unacked acked lost + 1) /\
+    (forall pn, 0 <= pn -> pn < least_unacked acked lost -> pq_get 0 q2 pn = Ok None) /\
+    (pq_is_empty q3 = false -> pq_last q3 <= last_sent_of invalidPacketNumber (es1 ++ QCong acked lost :: es2)).
+Proof.
+  intros size m0 es1 acked lost es2 H.
+  assert (Hinc : sent_increasing_from invalidPacketNumber (es1 ++ QCong acked lost :: es2) = true).
+  { destruct H as [H|H]; [|exact H]. eapply quic_consistent_increasing. exact H. }
+  destruct (sent_increasing_app es1 (QCong acked lost :: es2) _ Hinc) as (H1 & H2).
+  assert (I0 : bk_inv (pq_new 0 size) invalidPacketNumber).
+  { destruct (pq_new_wf Z 0 size) as (W & A). split; [exact W|]. split; [|apply Z.le_refl].
+    intros EM. exfalso. assert (X : pq_is_empty (pq_new 0 size) = true) by reflexivity. congruence. }
+  destruct (bk_run_inv es1 _ _ I0 H1) as (q1 & E1 & I1).
+  destruct (bk_step_inv q1 _ (QCong acked lost) I1 eq_refl) as (q2 & E2 & I2 & S2 & G2).
+  destruct (bk_run_inv es2 q2 _ I2 H2) as (q3 & E3 & I3).
+  exists q1, q2, q3. split; [exact E1|]. split; [exact E2|]. split; [exact E3|]. split; [exact S2|]. split; [exact G2|].
+  destruct I3 as (_ & L3 & _). intros EM. specialize (L3 EM).
+  assert (X : last_sent_of invalidPacketNumber (es1 ++ QCong acked lost :: es2) =
+              last_sent_of (last_sent_of invalidPacketNumber [QCong acked lost]) es2 \/ True) by (right; exact I).
+  clear X.
+  assert (Happ : forall a b l0, last_sent_of l0 (a ++ b) = last_sent_of (last_sent_of l0 a) b).
+  { induction a as [|e t IH]; intros; [reflexivity|]. destruct e; cbn [app last_sent_of]; apply IH. }
+  rewrite Happ. cbn [last_sent_of]. cbn [last_sent_of] in L3. exact L3.
+Qed.
+Print Assumptions C12_bookkeeping_bounded.
+
+(* non-vacuity of layer 2: a concrete run reaching recovery and an MTU raise, and a consistent trace *)
+Example C12_window_example :
+  exists st, wrun false (new_sender 1200)
+    [WSent 0 1200; WSent 1 2400;
+     WCong 2400 1200 0 (Some 0) false (mkO c12_modeProbeBw true 50000 0 0 1200 0 1200);
+     WSent 2 2400; WSent 3 3600;
+     WCong 3600 1200 1200 (Some 3) true (mkO c12_modeProbeBw true 50000 0 0 1200 1200 2400);
+     WSetMds 1452;
+     WCong 1200 1200 0 (Some 2) false (mkO c12_modeProbeRtt true 50000 0 0 1200 0 3600)] = Ok st /\
+  recState st = c12_recConservation /\ get_cwnd st = 4 * 1452 /\ maxCW st = 20000 * 1452.
+Proof. eexists. split; [vm_compute; reflexivity|]. vm_compute. auto. Qed.
+
+Example C12_consistent_example :
+  quic_consistent 1200 [QSent 0 1200 true; QSent 1 50 false; QSent 3 1200 true; QSent 4 1200 true;
+                        QCong [(3, 1200)] [(0, 1200)]; QSetMds 1452; QSent 7 1452 true; QCong [] [(4, 1200)]] = true.
+Proof. vm_compute. reflexivity. Qed.
